@@ -18,12 +18,12 @@ RULE = ("each case: an original file of 0-200 bytes and up to 20 operations: del
         "zero fill for gaps. Oracle: every completed read equals the model slice taken when the read was issued (EOFError at/after EOF); after the download has delivered "
         "everything, the whole temporary file (what close() uploads: read to EOF, so its length counts) equals the model. Non-trivial = an overwrite that starts ahead of the download position and overlaps or "
         "nests inside an earlier pending overwrite; distinct by whole case.  Handle family: flags in {rw, w, rw+append, rw+trunc, rw+creat}, up to 20 requests, close before or after "
-        "the download finished; oracle: every readChunk that was not overtaken by a later write/size change/close while still waiting equals the model at the time it was "
+        "the download finished; oracle: every readChunk equals the model at the time it was "
         "requested (FX_EOF at/after EOF), getAttrs reports the model size, every request completes, and what close() hands to the uploader (parent.add_file or "
         "filenode.overwrite, read to EOF) equals the model whenever a write or size change was requested (otherwise nothing or the same contents).")
 LEVEL_TEXT = "Random histories against a byte-array model, with offsets generated relative to the state that matters (download position, pending overwrites)."
 ASSUMPTIONS = ["the temporary file is the real EncryptedTemporaryFile (key from the seeded urandom); what close() would upload is the whole file read to EOF", "consumer family: no overwrite or size change is issued while a read is waiting (OverwriteableFileConsumer.read documents this as the caller's obligation); several reads may wait at once",
-               "handle family: a readChunk that is still waiting for the download when a later writeChunk/setAttrs/close is requested is not asserted (GeneralSFTPFile does not hold later requests back until the read has been answered; the statement orders client operations and does not speak about overlapping ones)"]
+               "handle family: requests are issued without waiting for earlier answers (several may be outstanding); every answer is asserted against the model in request order"]
 REQUIRED_CLASSES = ["requests-queued-before-version-lookup-finished", "uploaded", "size-changed", "close-waits-for-download", "two-reads-outstanding", "mutable-node", "immutable-node", "overwrite-ahead", "overwrite-nested-in-pending", "overwrite-overlaps-pending", "overwrite-behind", "overwrite-past-eof", "truncate", "extend", "read-waits-for-download", "read-eof"]
 BUDGET = {"quick": 600, "thorough": 3600}
 
@@ -203,8 +203,7 @@ def run_handle_case(case, ctx):
         # else, in particular what close() uploads, still is.
         for r in reads:
             if not r[3] and not r[4]:
-                r[4] = True
-                classes.add("mutation-while-read-pending(read-not-asserted)")
+                classes.add("mutation-while-read-pending")      # (since fix D45 the handle makes later requests wait for the read: asserted like any other read)
 
     def check_reads():
         for r in reads:
